@@ -21,7 +21,6 @@ One(p)    == (1 :> p)
 Params_AB == Two(PA, PB)
 Params_CD == Two(PC, PD)
 Params_EF == Two(PE, PF)
-Params_AD == Two(PA, PD)
 Params_A  == One(PA)
 Params_B  == One(PB)
 Params_C  == One(PC)
